@@ -6,6 +6,8 @@ import (
 	"math"
 	"reflect"
 	"strings"
+	"sync"
+	"sync/atomic"
 	"unicode/utf16"
 	"unicode/utf8"
 
@@ -25,16 +27,28 @@ type importedString struct {
 	s string
 	u unicodeString
 
-	scanned bool
+	// Strings are shared between runtimes running on different goroutines, so the lazy scan must be
+	// race-free: u is written once under scanOnce and published by the atomic scanned flag.
+	scanned  uint32
+	scanOnce sync.Once
 }
 
 func (i *importedString) scan() {
-	i.u = unistring.Scan(i.s)
-	i.scanned = true
+	i.scanOnce.Do(func() {
+		if atomic.LoadUint32(&i.scanned) == 0 {
+			i.u = unistring.Scan(i.s)
+			atomic.StoreUint32(&i.scanned, 1)
+		}
+	})
+}
+
+// isScanned reports whether u is valid (it may be nil for an ASCII-only string).
+func (i *importedString) isScanned() bool {
+	return atomic.LoadUint32(&i.scanned) != 0
 }
 
 func (i *importedString) ensureScanned() {
-	if !i.scanned {
+	if !i.isScanned() {
 		i.scan()
 	}
 }
@@ -109,7 +123,7 @@ func (i *importedString) Equals(other Value) bool {
 func (i *importedString) StrictEquals(other Value) bool {
 	switch otherStr := other.(type) {
 	case asciiString:
-		if i.u != nil {
+		if i.isScanned() && i.u != nil {
 			return false
 		}
 		return i.s == string(otherStr)
@@ -171,9 +185,9 @@ func (i *importedString) Length() int {
 }
 
 func (i *importedString) Concat(v String) String {
-	if !i.scanned {
+	if !i.isScanned() {
 		if v, ok := v.(*importedString); ok {
-			if !v.scanned {
+			if !v.isScanned() {
 				return &importedString{s: i.s + v.s}
 			}
 		}
@@ -202,7 +216,7 @@ func (i *importedString) CompareTo(v String) int {
 }
 
 func (i *importedString) Reader() io.RuneReader {
-	if i.scanned {
+	if i.isScanned() {
 		if i.u != nil {
 			return i.u.Reader()
 		}
@@ -248,7 +262,7 @@ func (s *stringUtf16Reader) ReadRune() (r rune, size int, err error) {
 }
 
 func (i *importedString) utf16Reader() utf16Reader {
-	if i.scanned {
+	if i.isScanned() {
 		if i.u != nil {
 			return i.u.utf16Reader()
 		}
@@ -260,7 +274,7 @@ func (i *importedString) utf16Reader() utf16Reader {
 }
 
 func (i *importedString) utf16RuneReader() io.RuneReader {
-	if i.scanned {
+	if i.isScanned() {
 		if i.u != nil {
 			return i.u.utf16RuneReader()
 		}
